@@ -192,6 +192,7 @@ func (v *Verifier) enumerateCases(fr *FuncRef, fc *FuncContract) []caseSpec {
 }
 
 type Verifier struct {
+	gidx      *globalIndex
 	cfgLabel  string   // non-empty when this run analyses an alternative build configuration (C17)
 	altCfgs   []string // alternative configurations that were analysed as well
 	stdConf   map[string]interface{}
@@ -475,8 +476,18 @@ func (ex *Exec) runPath(cs caseSpec) {
 			}
 		}()
 		ex.execBlock(ex.fn.Decl.Body.List)
+		ex.runDefers()
 		if ex.trace != nil {
 			ex.segs = append(ex.segs, schedSeg{"to-return", ex.trace, ex.hyps(), ex.pathLabel()})
+		}
+		if len(fm.results) == 0 && ex.fn.Decl.Type.Results != nil {
+			// bare return (or falling off the end) with named results
+			for _, f := range ex.fn.Decl.Type.Results.List {
+				for _, n := range f.Names {
+					o := ex.fn.Pkg.Info.Defs[n]
+					fm.results = append(fm.results, ex.load(fm.vars[o], 0, o.Type()))
+				}
+			}
 		}
 		ex.atReturn(fm.results)
 	}()
